@@ -160,9 +160,11 @@ def parse_vspec(path):
             cur_fn.closures[int(m.group(1))] = (m.group(2), body)
             raw_target = body
         elif kw == "loop":
-            m = re.match(r"(\d+)(\s+iter\s+(\w+))?$", rest)
+            m = re.match(r"(\d+)(\s+iter\s+(\w+))?(\s+over\s+(\"(?:[^\"\\]|\\.)*\"))?$", rest)
+            if not m:
+                raise SystemExit(f"{path}:{ln}: bad loop directive")
             body = []
-            cur_fn.loops[int(m.group(1))] = (m.group(3), body)
+            cur_fn.loops[int(m.group(1))] = (m.group(3), body, json.loads(m.group(5)) if m.group(5) else None)
             raw_target = body
         elif kw == "hint":
             body = []
@@ -599,8 +601,8 @@ def process_fn(toks, it, fs: FnSpec, qual, ed: Edits, log, unit_in_trait_impl):
         sg_idx = [k for k in range(lo, hi) if toks[k].kind not in ("ws", "comment")]
         for ii in range(len(sg_idx) - 6):
             seq = [toks[sg_idx[ii + d]].text for d in range(7)]
-            if seq in ([".", "iter", "(", ")", ".", "any", "("], [".", "iter", "(", ")", ".", "find", "("]):
-                helper12 = "vx_any" if seq[5] == "any" else "vx_find"
+            if seq in ([".", "iter", "(", ")", ".", "any", "("], [".", "iter", "(", ")", ".", "find", "("], [".", "iter", "(", ")", ".", "all", "("]):
+                helper12 = {"any": "vx_any", "find": "vx_find", "all": "vx_all"}[seq[5]]
                 # receiver: ident (. ident)* ending right before sg_idx[ii]
                 jj = ii - 1
                 if jj < 0 or toks[sg_idx[jj]].kind != "ident":
@@ -608,7 +610,8 @@ def process_fn(toks, it, fs: FnSpec, qual, ed: Edits, log, unit_in_trait_impl):
                 while jj - 2 >= 0 and toks[sg_idx[jj - 1]].text == "." and toks[sg_idx[jj - 2]].kind == "ident":
                     jj -= 2
                 recv = src[toks[sg_idx[jj]].pos:toks[sg_idx[ii - 1]].end]
-                ed.replace(toks[sg_idx[jj]].pos, toks[sg_idx[ii + 6]].end, f"{helper12}({recv}.as_slice(), ")
+                as_slice = "" if fs.r12map.get(recv.replace(" ", "")) == "slice" else ".as_slice()"
+                ed.replace(toks[sg_idx[jj]].pos, toks[sg_idx[ii + 6]].end, f"{helper12}({recv}{as_slice}, ")
                 cnt += 1
         # X.into_iter().filter(c).collect() -> vx_filter_collect(X, c)
         for ii in range(len(sg_idx) - 6):
@@ -686,7 +689,9 @@ def process_fn(toks, it, fs: FnSpec, qual, ed: Edits, log, unit_in_trait_impl):
     # loops
     if fs.loops:
         lp = find_loops(toks, lo, hi)
-        for n, (itname, raw) in sorted(fs.loops.items()):
+        for n, lspec in sorted(fs.loops.items()):
+            itname, raw = lspec[0], lspec[1]
+            over = lspec[2] if len(lspec) > 2 else None
             if n > len(lp):
                 raise LostAnchor(f"{qual}: loop {n} not found ({len(lp)} loops)")
             l = lp[n - 1]
@@ -694,6 +699,13 @@ def process_fn(toks, it, fs: FnSpec, qual, ed: Edits, log, unit_in_trait_impl):
                 if l.in_kw < 0:
                     raise LostAnchor(f"{qual}: loop {n} is not a for loop")
                 ed.insert(toks[l.in_kw].end, f" {itname}:")
+            if over:
+                # R11 on the iterable of a for loop: the expression between `in` and the body is outlined
+                a = next_sig(toks, l.in_kw + 1, l.body_open)
+                b = prev_sig_idx(toks, l.body_open - 1)
+                old_txt = src[toks[a].pos:toks[b].end]
+                ed.replace(toks[a].pos, toks[b].end, over)
+                log["rewrites"].append({"rule": "R11", "fn": qual, "before": f"for .. in {old_txt}", "after": f"for .. in {over}", "count": 1})
             ed.insert(toks[l.body_open].pos, "\n" + "\n".join(raw) + "\n", prio=1)
     # rewrites inside the function
     for rule, old, new in fs.rewrites:
